@@ -27,6 +27,12 @@ def dts():
         out.append(("naive", None, d))
         for z in ("Europe/Paris", "UTC", "Asia/Tokyo"):
             out.append(("aware", z, d.replace(tzinfo=ZoneInfo(z))))
+    # aware datetimes whose tzinfo is not a ZoneInfo: the standard library's own fixed offsets
+    # (appended last: the probe indices above stay what they were)
+    for iso in ("2024-07-14T12:00:00", "2024-12-23T14:44:00"):
+        d = datetime.fromisoformat(iso)
+        out.append(("aware-fixed", "UTC", d.replace(tzinfo=timezone.utc)))
+        out.append(("aware-fixed", "+01:00", d.replace(tzinfo=timezone(timedelta(hours=1)))))
     return out
 
 def plus3(d):
@@ -45,6 +51,7 @@ def enc_dt(d):
     if d.tzinfo is not None:
         if key is None:
             r["tz"] = str(d.tzinfo)
+            r["fixed"] = True
         try:
             u = d.astimezone(timezone.utc)
             r["utc"] = u.replace(tzinfo=None).isoformat()
